@@ -317,6 +317,58 @@ def run(tier, seed, build, res):
             ms.append('server')
         return ms
     process(cases, modes_of, res, 'docs')
+    own_checks_stream(rng, res, 6 if tier == 'quick' else 80)
+
+
+def own_checks_stream(rng, res, n):
+    """messages of the shell's own checks (--single-letters) go through the
+    same offset shift per part, mapping and ordering as proofreader matches:
+    each isolated letter of the document is reported at its own place in the
+    LaTeX file, in all formats, single- and multi-language"""
+    import shellrun
+    letters = 'qcjz'
+    for i in range(n):
+        multi = i % 3 != 0
+        tex = '\\usepackage[german,english]{babel}\n'
+        want = []
+        for k in range(rng.randint(2, 4)):
+            lang = rng.choice(['german', 'english'])
+            tex += '\\selectlanguage{%s}\n' % lang
+            for j in range(rng.randint(1, 2)):
+                tex += rng.choice(['Wort und Satz ', 'More words here ', 'Abc def '])
+                if rng.random() < 0.7:
+                    ch = rng.choice(letters)
+                    want.append((len(tex), ch))
+                    tex += ch + ' '
+                tex += rng.choice(['ende.\n', 'xyz end.\n\n', 'fin.\n'])
+        for mode in ('json', 'plain', 'xml'):
+            args = ['--output', mode, '--language', 'en-GB', '--single-letters', 'A|I']
+            if multi:
+                args.append('--multi-language')
+            r = shellrun.run_shell({'t.tex': tex}, args + ['t.tex'])
+            case = {'tex': tex, 'multi': multi, 'mode': mode, 'own_checks': True}
+            key = 'c14-own:%s:%r:%r' % (mode, multi, tex)
+            res.count('own-checks', (mode, multi, tex), nontrivial=len(want) > 0)
+            if r.rc != 0 or r.traceback:
+                res.failures.append((key, case, 'shell failed: rc %d %s' % (r.rc, r.err[-200:])))
+                continue
+            out = r.out.decode('utf-8')
+            exp = [shellcase.linecol(tex, o) for o, _ in want]
+            if mode == 'json':
+                got = [(fy + 1, fx + 1) for _, _, fy, fx, _, _ in shellcase.parse_json(out)]
+                offs = [o for o, _, _, _, _, _ in shellcase.parse_json(out)]
+                if offs != [o for o, _ in want]:
+                    res.failures.append((key, case, 'isolated letters stand at offsets %r of '
+                                         'the LaTeX file, reported offsets: %r'
+                                         % ([o for o, _ in want], offs)))
+                    continue
+            elif mode == 'plain':
+                got = shellcase.parse_plain(out)
+            else:
+                got = [(a + 1, b + 1) for a, b, _, _ in shellcase.parse_xml(out)]
+            if got != exp:
+                res.failures.append((key, case, 'isolated letters stand at (line, column) '
+                                     '%r, reported in order: %r' % (exp, got)))
 
 
 def case_from_json(x):
